@@ -2359,10 +2359,15 @@ func (lexer *Lexer) tryToDecodeEscapeSequences(start int, text string, reportErr
 						isFirst = false
 					}
 
-					if isOutOfRange && reportErrors {
-						lexer.addRangeError(logger.Range{Loc: logger.Loc{Start: int32(start + hexStart)}, Len: int32(i - hexStart)},
-							"Unicode escape sequence is out of range")
-						panic(LexerPanic{})
+					if isOutOfRange {
+						if reportErrors {
+							lexer.addRangeError(logger.Range{Loc: logger.Loc{Start: int32(start + hexStart)}, Len: int32(i - hexStart)},
+								"Unicode escape sequence is out of range")
+							panic(LexerPanic{})
+						}
+
+						// An out-of-range escape in a tagged template has no cooked value
+						return nil, false, start + hexStart
 					}
 				} else {
 					// Fixed-length
